@@ -167,6 +167,88 @@ theorem devChildren (info : List (Option Str)) (icons : List IconSpec) (svcs : L
   · simp only [parseInfo, renderDevice, Xml.findtext, Xml.find, Xml.children, List.append_assoc]
     exact parseInfo_children info _ _ _
 
+/-! ### `keyedValues` keeps every item when ids are distinct and types contain no `#` -/
+
+theorem hash_split : ∀ (a c b d : Str), '#' ∉ a → '#' ∉ c → a ++ '#' :: b = c ++ '#' :: d → a = c ∧ b = d := by
+  intro a
+  induction a with
+  | nil =>
+    intro c b d _ hc h
+    cases c with
+    | nil => simp at h; exact ⟨rfl, h⟩
+    | cons x c' =>
+      simp only [List.nil_append, List.cons_append, List.cons.injEq] at h
+      exact absurd (by simp [← h.1]) hc
+  | cons y a' ih =>
+    intro c b d ha hc h
+    cases c with
+    | nil =>
+      simp only [List.nil_append, List.cons_append, List.cons.injEq] at h
+      exact absurd (by simp [h.1]) ha
+    | cons x c' =>
+      simp only [List.cons_append, List.cons.injEq] at h
+      obtain ⟨h1, h2⟩ := ih c' b d (fun hm => ha (by simp [hm])) (fun hm => hc (by simp [hm])) h.2
+      exact ⟨by rw [h.1, h1], h2⟩
+
+theorem keyedValues_all {α : Type} (key uniq : α → Str) : ∀ (l : List α) (acc : PyDict Str α) (p : List α),
+    PyDict.values acc = p →
+    (∀ k ∈ PyDict.keys acc, ∃ y ∈ p, k = key y ∨ k = key y ++ '#' :: uniq y) →
+    (∀ x ∈ p ++ l, '#' ∉ key x) → ((p ++ l).map uniq).Nodup →
+    PyDict.values (l.foldl (keyStep key uniq) acc) = p ++ l := by
+  intro l
+  induction l with
+  | nil => intro acc p hv _ _ _; simpa using hv
+  | cons x r ih =>
+    intro acc p hv hk hh hn
+    simp only [List.foldl_cons]
+    have hxp : ∀ y ∈ p, uniq y ≠ uniq x := by
+      intro y hy e
+      rw [List.map_append, List.map_cons] at hn
+      have := (List.nodup_append.mp hn).2.2 (uniq y) (List.mem_map.mpr ⟨y, hy, rfl⟩) (uniq x) (by simp)
+      exact this e
+    have hfresh : (if PyDict.contains acc (key x) then key x ++ '#' :: uniq x else key x) ∉ PyDict.keys acc := by
+      by_cases hc : PyDict.contains acc (key x) = true
+      · rw [if_pos hc]
+        intro hm
+        obtain ⟨y, hy, h1 | h1⟩ := hk _ hm
+        · have : '#' ∈ key y := by rw [← h1]; simp
+          exact hh y (by simp [hy]) this
+        · have := hash_split (key x) (key y) (uniq x) (uniq y) (hh x (by simp)) (hh y (by simp [hy])) h1
+          exact hxp y hy this.2.symm
+      · rw [if_neg hc]
+        intro hm
+        apply hc
+        unfold PyDict.contains
+        exact (PyDict.get?_isSome_iff acc (key x)).mpr hm
+    have hstep : keyStep key uniq acc x
+        = acc ++ [((if PyDict.contains acc (key x) then key x ++ '#' :: uniq x else key x), x)] := by
+      unfold keyStep; exact set_append_new acc _ x hfresh
+    rw [hstep]
+    have := ih (acc ++ [((if PyDict.contains acc (key x) then key x ++ '#' :: uniq x else key x), x)]) (p ++ [x])
+      (by simp [PyDict.values, ← hv])
+      (by
+        intro k hkm
+        simp only [PyDict.keys, List.map_append, List.map_cons, List.map_nil, List.mem_append, List.mem_singleton] at hkm
+        rcases hkm with hkm | rfl
+        · obtain ⟨y, hy, h1⟩ := hk k (by simpa [PyDict.keys] using hkm)
+          exact ⟨y, by simp [hy], h1⟩
+        · refine ⟨x, by simp, ?_⟩
+          by_cases hc : PyDict.contains acc (key x) = true
+          · right; rw [if_pos hc]
+          · left; rw [if_neg hc])
+      (by simpa [List.append_assoc] using hh)
+      (by simpa [List.append_assoc] using hn)
+    simpa [List.append_assoc] using this
+
+theorem keyedValues_id {α : Type} (key uniq : α → Str) (l : List α) (hh : ∀ x ∈ l, '#' ∉ key x)
+    (hn : (l.map uniq).Nodup) : keyedValues key uniq l = l := by
+  unfold keyedValues
+  have := keyedValues_all key uniq l [] [] rfl (by intro k hk; simp [PyDict.keys] at hk) (by simpa using hh) (by simpa using hn)
+  simpa using this
+
+theorem noHash_iff (s : Str) : noHash s = true ↔ '#' ∉ s := by
+  simp [noHash]
+
 /-! ### the whole tree -/
 
 section
@@ -180,8 +262,9 @@ mutual
 /-- every service document is served, and names are distinct per scope, throughout the tree -/
 def Good : DeviceSpec → Prop
   | .mk _ _ svcs emb =>
-      (∀ s ∈ svcs, SvcGood fetch base s) ∧ (svcs.map fun s => s.serviceType.getD []).Nodup
-      ∧ Goods emb ∧ (deviceTypes emb).Nodup
+      (∀ s ∈ svcs, SvcGood fetch base s)
+      ∧ ((svcs.map fun s => s.serviceId.getD []).Nodup ∧ ∀ s ∈ svcs, '#' ∉ s.serviceType.getD [])
+      ∧ Goods emb ∧ ((udns emb).Nodup ∧ ∀ t ∈ deviceTypes emb, '#' ∉ t)
 def Goods : List DeviceSpec → Prop
   | [] => True
   | d :: r => Good d ∧ Goods r
@@ -200,14 +283,47 @@ theorem svc_types (svcs : List ServiceSpec) (ms : List (SvcM F))
   mapE_ok_map _ (·.serviceType) (fun s => s.serviceType.getD [])
     (fun s m hm => svcOf_type base _ _ _ _ _ _ m (by simpa [mirrorService] using hm)) svcs ms h
 
-theorem mirrorInfo_head (info : List (Option Str)) :
-    (((mirrorInfo infoTags info).head?.getD none).getD []) = ((info.head?.getD none).getD []) := by
-  cases info with
-  | nil => rfl
-  | cons o os => cases o <;> rfl
+theorem svcOf_id (a b c d e : Option Str) (body : Except FErr (List (VarM F) × List ActM)) (m : SvcM F)
+    (h : svcOf base a b c d e body = .ok m) : m.serviceId = a.getD [] := by
+  unfold svcOf at h
+  split at h
+  · cases h
+  · simp only [Except.ok.injEq] at h; rw [← h]
 
-theorem mirror_deviceType (d : DeviceSpec) (m : DevM F) (h : mirror fo tb nonStrict base d = .ok m) :
-    m.deviceType = (deviceTypes [d]).head?.getD [] := by
+theorem svc_ids (svcs : List ServiceSpec) (ms : List (SvcM F))
+    (h : mapE (mirrorService fo tb nonStrict base) svcs = .ok ms) :
+    ms.map (·.serviceId) = svcs.map fun s => s.serviceId.getD [] :=
+  mapE_ok_map _ (·.serviceId) (fun s => s.serviceId.getD [])
+    (fun s m hm => svcOf_id base _ _ _ _ _ _ m (by simpa [mirrorService] using hm)) svcs ms h
+
+/-- a field whose default is the empty string reads as the description's text or `""` -/
+theorem mirrorInfo_getD : ∀ (ts : List Tag) (os : List (Option Str)) (i : Nat) (t : Tag),
+    ts[i]? = some t → infoDefault t = some [] →
+    ((mirrorInfo ts os).getD i none).getD [] = (os.getD i none).getD [] := by
+  intro ts
+  induction ts with
+  | nil => intro os i t h; simp at h
+  | cons t0 ts ih =>
+    intro os i t h hd
+    cases i with
+    | zero =>
+      simp only [List.getElem?_cons_zero, Option.some.injEq] at h
+      subst h
+      cases os with
+      | nil => simp [mirrorInfo, hd]
+      | cons o os => cases o <;> simp [mirrorInfo, hd]
+    | succ j =>
+      simp only [List.getElem?_cons_succ] at h
+      cases os with
+      | nil =>
+        have := ih [] j t h hd
+        simpa [mirrorInfo] using this
+      | cons o os =>
+        have := ih os j t h hd
+        simpa [mirrorInfo] using this
+
+theorem mirror_keys (d : DeviceSpec) (m : DevM F) (h : mirror fo tb nonStrict base d = .ok m) :
+    [m.deviceType] = deviceTypes [d] ∧ [m.udn] = udns [d] := by
   cases d with
   | mk info icons svcs emb =>
     rw [mirror] at h
@@ -219,14 +335,17 @@ theorem mirror_deviceType (d : DeviceSpec) (m : DevM F) (h : mirror fo tb nonStr
         · cases h
         · simp only [Except.ok.injEq] at h
           rw [← h]
-          simp only [DevM.deviceType, deviceTypes, List.head?_cons, Option.getD_some]
-          exact mirrorInfo_head info
+          simp only [DevM.deviceType, DevM.udn, deviceTypes, udns, List.cons.injEq, and_true]
+          refine ⟨?_, ?_⟩
+          · have := mirrorInfo_getD infoTags info 0 .deviceType (by decide) (by decide)
+            simpa [List.getD_eq_getElem?_getD, List.head?_eq_getElem?] using this
+          · exact mirrorInfo_getD infoTags info 9 .UDN (by decide) (by decide)
 
-theorem mirrors_deviceTypes : ∀ (l : List DeviceSpec) (ms : List (DevM F)),
-    mirrors fo tb nonStrict base l = .ok ms → ms.map DevM.deviceType = deviceTypes l := by
+theorem mirrors_keys : ∀ (l : List DeviceSpec) (ms : List (DevM F)),
+    mirrors fo tb nonStrict base l = .ok ms → ms.map DevM.deviceType = deviceTypes l ∧ ms.map DevM.udn = udns l := by
   intro l
   induction l with
-  | nil => intro ms h; simp [mirrors] at h; subst h; rfl
+  | nil => intro ms h; simp [mirrors] at h; subst h; exact ⟨rfl, rfl⟩
   | cons d r ih =>
     intro ms h
     rw [mirrors] at h
@@ -240,12 +359,12 @@ theorem mirrors_deviceTypes : ∀ (l : List DeviceSpec) (ms : List (DevM F)),
         rw [hr] at h
         simp only [Except.ok.injEq] at h
         subst h
-        have h1 := mirror_deviceType fo tb nonStrict base d m hd
+        obtain ⟨h1, h2⟩ := mirror_keys fo tb nonStrict base d m hd
+        obtain ⟨i1, i2⟩ := ih ms' hr
         cases d with
         | mk info icons svcs emb =>
-          simp only [List.map_cons, deviceTypes, ih ms' hr] at h1 ⊢
-          simp only [List.head?_cons, Option.getD_some] at h1
-          rw [h1]
+          simp only [deviceTypes, udns, List.cons.injEq, and_true] at h1 h2
+          simp only [List.map_cons, deviceTypes, udns, i1, i2, h1, h2, and_self]
 
 mutual
 theorem createDevice_render : ∀ (d : DeviceSpec) (fuel : Nat), d.depth ≤ fuel → Good fetch base d →
@@ -255,8 +374,9 @@ theorem createDevice_render : ∀ (d : DeviceSpec) (fuel : Nat), d.depth ≤ fue
     | zero => simp [DeviceSpec.depth] at hf
     | succ f =>
       obtain ⟨hIcons, hSvcs, hEmb, hInfo⟩ := devChildren info icons svcs emb
-      obtain ⟨gs, gt, ge, gd⟩ : (∀ s ∈ svcs, SvcGood fetch base s) ∧ (svcs.map fun s => s.serviceType.getD []).Nodup
-          ∧ Goods fetch base emb ∧ (deviceTypes emb).Nodup := by simpa [Good] using hg
+      obtain ⟨gs, gt, ge, gd⟩ : (∀ s ∈ svcs, SvcGood fetch base s)
+          ∧ ((svcs.map fun s => s.serviceId.getD []).Nodup ∧ ∀ s ∈ svcs, '#' ∉ s.serviceType.getD [])
+          ∧ Goods fetch base emb ∧ ((udns emb).Nodup ∧ ∀ t ∈ deviceTypes emb, '#' ∉ t) := by simpa [Good] using hg
       have hdep : depths emb ≤ f := by simp [DeviceSpec.depth] at hf; omega
       have e1 : mapE (parseIcon base) (icons.map renderIcon) = mapE (mirrorIcon base) icons := by
         rw [mapE_map]; exact mapE_congr _ _ icons (fun i _ => parseIcon_render base i)
@@ -278,8 +398,22 @@ theorem createDevice_render : ∀ (d : DeviceSpec) (fuel : Nat), d.depth ≤ fue
           | error e => rfl
           | ok em =>
             simp only
-            rw [dictValues_nodup _ sv (by rw [svc_types fo tb nonStrict base svcs sv h2]; exact gt),
-                dictValues_nodup _ em (by rw [mirrors_deviceTypes fo tb nonStrict base emb em h3]; exact gd)]
+            have ksv : keyedValues (·.serviceType) (·.serviceId) sv = sv := by
+              apply keyedValues_id
+              · intro x hx
+                have ht := svc_types fo tb nonStrict base svcs sv h2
+                have : x.serviceType ∈ svcs.map fun s => s.serviceType.getD [] := by
+                  rw [← ht]; exact List.mem_map.mpr ⟨x, hx, rfl⟩
+                obtain ⟨s0, hs0, he⟩ := List.mem_map.mp this
+                rw [← he]; exact gt.2 s0 hs0
+              · rw [svc_ids fo tb nonStrict base svcs sv h2]; exact gt.1
+            have kem : keyedValues DevM.deviceType DevM.udn em = em := by
+              obtain ⟨k1, k2⟩ := mirrors_keys fo tb nonStrict base emb em h3
+              apply keyedValues_id
+              · intro x hx
+                exact gd.2 _ (by rw [← k1]; exact List.mem_map.mpr ⟨x, hx, rfl⟩)
+              · rw [k2]; exact gd.1
+            rw [ksv, kem]
 theorem createDevices_render : ∀ (l : List DeviceSpec) (fuel : Nat), depths l ≤ fuel → Goods fetch base l →
     mapE (createDevice fo tb fetch nonStrict base fuel) (renderDevices l) = mirrors fo tb nonStrict base l
   | [], _, _, _ => by simp [renderDevices, mapE, mirrors]
